@@ -240,6 +240,15 @@ func (b *refBuilder) newFile(dirOf string, node *model.Node, asDef string) *mode
 		// relative to its own document)
 		for _, cand := range []string{"common", "shared"} {
 			taken := false
+			if asDef == "" && b.c.Avoid("names.collision_while_unsuffixed_in_progress") {
+				// a file referenced as a whole gets the root type <Name>Json: two such files with one base
+				// name nested in each other meet while the outer declaration is in progress (known finding)
+				for _, of := range b.files {
+					if strings.HasPrefix(path.Base(of.RelPath), cand+".") && len(of.Defs) == 0 {
+						taken = true
+					}
+				}
+			}
 			for _, of := range b.files {
 				// whatever the extension: an extension-less reference must stay unambiguous
 				if strings.TrimSuffix(strings.TrimSuffix(of.RelPath, ".json"), ".yaml") == path.Join(dir, cand) {
